@@ -21,7 +21,9 @@ fn has_quote_hazard(want: &Node) -> bool {
     fn any(n: &Node, f: &dyn Fn(&Node) -> bool) -> bool {
         f(n) || n.kids.iter().any(|k| any(k, f))
     }
-    any(want, &|n| matches!(n.kind, "StringValue" | "Description" | "ImportPath") && n.tag != "block" && !n.label.contains('\n') && (n.label.contains('"') || n.label.contains('\\')))
+    // a block string is kept raw by the parser (C07's finding); when its raw text has no newline it is printed back in
+    // single-line form, unescaped like any other single-line string: a quote or backslash in it is the same hazard
+    any(want, &|n| matches!(n.kind, "StringValue" | "Description" | "ImportPath") && (n.tag.starts_with("block") || !n.label.contains('\n')) && (n.label.contains('"') || n.label.contains('\\')))
 }
 
 const QUOTE_SIG: &str = "C16|document-has-single-line-string-with-quote-or-backslash";
